@@ -3256,8 +3256,9 @@ impl RelationalEngine {
                 });
             }
 
-            // Index gives us row IDs - take only what we need
-            let limited_ids: Vec<u64> = row_ids.into_iter().take(target_count).collect();
+            // The index yields candidates in index order and they still have to pass the
+            // re-check below, so they cannot be truncated before filtering and sorting.
+            let limited_ids: Vec<u64> = row_ids;
 
             let indices: Vec<usize> = limited_ids
                 .iter()
